@@ -64,6 +64,38 @@ Section Proofs.
     rewrite Heng, Hn. destruct (estep e name args) as [e' r]. rewrite Hdel, Hn. split; reflexivity.
   Qed.
 
+  (* creation and reset, as generated *)
+  Lemma mcreate_is_spec reg id ok e :
+    mcreate estate [(true, true)] reg id ok e = Manager.spec_create estate reg id ok e.
+  Proof. unfold mcreate, Manager.spec_create. cbn. destruct ok; reflexivity. Qed.
+
+  Lemma lookup_insert_same reg id e : lookup estate (insert estate reg id e) id = Some e.
+  Proof.
+    induction reg as [|[k x] t IH]; cbn; [rewrite String.eqb_refl; reflexivity|].
+    destruct (String.eqb k id) eqn:E; cbn; rewrite E; [reflexivity|exact IH].
+  Qed.
+
+  Lemma lookup_insert_other reg id id' e : id' <> id -> lookup estate (insert estate reg id e) id' = lookup estate reg id'.
+  Proof.
+    intro Hne. induction reg as [|[k x] t IH]; cbn.
+    - destruct (String.eqb id id') eqn:E; [apply String.eqb_eq in E; congruence|reflexivity].
+    - destruct (String.eqb k id) eqn:E; cbn.
+      + apply String.eqb_eq in E. subst k. destruct (String.eqb id id') eqn:E2; [apply String.eqb_eq in E2; congruence|reflexivity].
+      + destruct (String.eqb k id'); [reflexivity|exact IH].
+  Qed.
+
+  (* a refused creation leaves every id as it was; a successful one registers the new engine
+     under its id and leaves every other id as it was *)
+  Lemma spec_create_effect reg id ok e id' :
+    lookup estate (Manager.spec_create estate reg id ok e) id' =
+    if ok && String.eqb id' id then Some e else lookup estate reg id'.
+  Proof.
+    unfold Manager.spec_create. destruct ok; cbn [andb]; [|reflexivity].
+    destruct (String.eqb id' id) eqn:E.
+    - apply String.eqb_eq in E. subst. apply lookup_insert_same.
+    - apply lookup_insert_other. intro H. subst. rewrite String.eqb_refl in E. discriminate.
+  Qed.
+
   (* ---- what the specification gives: effect, isolation, not-found ---- *)
   Lemma lookup_update_same reg id e e0 : lookup estate reg id = Some e0 -> lookup estate (update estate reg id e) id = Some e.
   Proof.
@@ -127,6 +159,9 @@ Definition covers (tbl : list mmethod) (names : list string) : bool :=
   forallb (fun n => existsb (fun m => String.eqb (mm_name m) n) tbl) names
   && forallb (fun m => existsb (String.eqb (mm_name m)) names) tbl
   && Nat.eqb (List.length tbl) (List.length names).
+
+Lemma generated_create_ok : create_stores = [(true, true)] /\ reset_clears = true.
+Proof. split; reflexivity. Qed.
 
 Lemma generated_table_covers : covers manager_table manager_methods = true.
 Proof. vm_compute. reflexivity. Qed.
